@@ -80,7 +80,8 @@ def do_replay(pid, path):
     else:
         import warnings
         from symx.core import Ctx
-        from symx.explore import reset_env
+        from symx.explore import reset_env, install_memo_model
+        install_memo_model(False)
         reset_env()
         ctx = Ctx('conc', model=rec['model'], choices=rec['choices'])
         try:
